@@ -21,7 +21,10 @@ static inline void verif_case_watchdog(size_t nops, unsigned base = 3, size_t op
     alarm(base + (unsigned)(nops / opsPerSecond));
 }
 
+// between cases a generous budget stays armed, so that a hang in teardown code that runs
+// after a case (destructors of the engine) still ends the process
 static inline void verif_watchdog_off()
 {
-    alarm(0);
+    std::signal(SIGALRM, verif_on_alarm);
+    alarm(60);
 }
